@@ -14,7 +14,10 @@ COMPOUND_DECOS = ['&(', '&)', 'Ww', '[y', '(', ')', 'w', 'y', '[', 'L']   # comb
 LETTERS = 'abcdefg'
 BAR_TYPES = ['', '', '', '||', '!|:', ':|!', ':|!|:', '|!']
 KERN_INTERPS = [['*clefG2', '*clefF4', '*clefC3', '*clefGv2', '*clefC1'], ['*k[]', '*k[f#]', '*k[b-e-]'], ['*M4/4', '*M3/4', '*M6/8'],
-                ['*met(c)', '*met(c|)'], ['*C:', '*a:', '*F#:'], ['*staff1', '*staff2'], ['*MM120'], ['*Ipiano', '*I"Violin']]
+                ['*met(c)', '*met(c|)'], ['*C:', '*a:', '*F#:'], ['*xywh-1:10,20,300,40', '*xywh-2:5,6,70,80', '*xywh-1:15,25,30,45'],
+                ['*staff1', '*staff2'], ['*MM120'], ['*Ipiano', '*I"Violin']]
+# texts that the kern grammar would read as notes / rests / chords: in another spine type they are plain words
+KERN_LOOKALIKES = ['4c', 'e-', 'a', '8r', '4c 4e', '2.dd#L', 'r', '16GG']
 TEXT_WORDS = ['Hel-', '-lo', 'world', 'la', 'col·lec', 'a@b', 'ño', 'dó', '"quoted"', 'it\'s', 'a,b', 'two words', 'Ky-', 'ri-', 'e', '4c', 'r',
               'x y z', 'naïve', '"open', 'tab?', '&amp;']
 DYNAM_WORDS = ['f', 'p', 'pp', 'ff', 'mf', 'sfz', '<', '>', '(', ')', 'cresc.']
@@ -155,6 +158,8 @@ def gen_other_data(rng, htype, spine, col):
         return Cell('null', '.', spine, col)
     words = {'**text': TEXT_WORDS, '**silbe': TEXT_WORDS, '**dynam': DYNAM_WORDS, '**dyn': DYNAM_WORDS, '**harm': HARM_WORDS,
              '**mxhm': HARM_WORDS, '**fing': FING_WORDS}.get(htype, TEXT_WORDS)
+    if htype in ('**text', '**silbe') and rng.random() < 0.1:
+        return Cell('text', rng.choice(KERN_LOOKALIKES), spine, col)
     return Cell('text', rng.choice(words), spine, col)
 
 
@@ -212,7 +217,7 @@ def gen_score(rng, spines=None, measures=None, allow_splits=True, kern_only=Fals
         advance(cells, ri)
 
     def signature_rows():
-        for group in rng.sample(KERN_INTERPS[:5], rng.choice([1, 2, 3])):
+        for group in rng.sample(KERN_INTERPS[:6], rng.choice([1, 2, 3])):
             choice = rng.choice(group)
             same = rng.random() < 0.7
 
@@ -232,8 +237,9 @@ def gen_score(rng, spines=None, measures=None, allow_splits=True, kern_only=Fals
             bt = rng.choice(BAR_TYPES)
             num = str(barno) if rng.random() < 0.7 else ''
             dbl = '=' if rng.random() < 0.1 else ''
-            text = '=' + dbl + num + bt
-            exp = '=' + dbl + bt
+            fer = ';' if rng.random() < 0.15 else ''            # a fermata on the barline
+            text = '=' + dbl + num + bt + fer
+            exp = '=' + dbl + bt + fer
             simple_row('bar', lambda sid, col: Cell('bar', text, sid, col, exp=exp))
             barno += 1
         if mid_signatures and m > 0 and rng.random() < 0.5:
@@ -272,9 +278,17 @@ def gen_score(rng, spines=None, measures=None, allow_splits=True, kern_only=Fals
             if comments and rng.random() < 0.08:
                 rows.append(Row('global', [], '!! inner comment %d' % len(rows)))
 
+            kern_texts = []
+
             def data(sid, col):
                 if headers[sid] == '**kern':
-                    return gen_kern_data(rng, sid, col, plain, chords, accidentals, compound)
+                    c = gen_kern_data(rng, sid, col, plain, chords, accidentals, compound)
+                    if c.kind != 'null':
+                        kern_texts.append(c.text)
+                    return c
+                if headers[sid] in ('**text', '**silbe') and kern_texts and rng.random() < 0.12:
+                    # the very text of a note of this line as a syllable: same characters, another kind of token
+                    return Cell('text', rng.choice(kern_texts), sid, col)
                 return gen_other_data(rng, headers[sid], sid, col)
             simple_row('data', data)
             if group is not None and (rng.random() < 0.5 or d == 2):
@@ -283,7 +297,7 @@ def gen_score(rng, spines=None, measures=None, allow_splits=True, kern_only=Fals
             close_group()
     if last_bar:
         bt = rng.choice(['', '=', '||', ':|!'])
-        text = '=' + bt if bt != '=' else '=='
+        text = ('=' + bt if bt != '=' else '==') + (';' if rng.random() < 0.15 else '')
         simple_row('bar', lambda sid, col: Cell('bar', text, sid, col, exp=text))
     simple_row('ops', lambda sid, col: Cell('op', '*-', sid, col))
     if comments and rng.random() < 0.4:
